@@ -12,6 +12,14 @@
 //! finished: a taker that over-claimed waits for the owner, which C04 allows; the scenarios are built so that
 //! the owner always fills claimed slots before it finishes.
 //!
+//! Scenario kinds: `normal` (above), `tiny` (no pre-fill: short traces), `aba`: the owner first plays a fixed
+//! prologue against ONE stealer that is *stalled inside the queue code* just before its first compare-exchange on
+//! `head` (the scenario wraps the harness hooks and parks that thread virtually there): the owner fills and
+//! drains two whole blocks on its own thread, so that the freed first block's address is handed out again by the
+//! allocator for the third block, and brings `head` to the same index with fewer values published than the stalled
+//! stealer believes. When the stealer is released its stale compare-exchange succeeds (ABA) and it has
+//! over-claimed: it waits until the owner (who meanwhile sees an empty queue) has pushed enough.
+//!
 //! Oracles (independent of the model): every pushed value is obtained exactly once (returned by an API call or
 //! dropped by a queue's Drop), nothing that was never pushed is obtained (payload carries a magic word: an
 //! uninitialised slot does not), the owner's own pops are in push order, every batch is a contiguous run of the
@@ -41,6 +49,12 @@ struct Ledger {
 }
 
 static LEDGER: Mutex<Option<Ledger>> = Mutex::new(None);
+/// set as soon as an oracle sees a duplicate / unwritten value: the actors stop using the queues and leak them,
+/// so that the finding is reported instead of the process dying of the memory corruption that follows
+static POISON: std::sync::atomic::AtomicBool = std::sync::atomic::AtomicBool::new(false);
+fn poisoned() -> bool {
+    POISON.load(Ordering::SeqCst)
+}
 
 fn ledger<R>(f: impl FnOnce(&mut Ledger) -> R) -> R {
     let mut g = LEDGER.lock().unwrap_or_else(|e| e.into_inner());
@@ -63,9 +77,13 @@ impl Drop for Item {
         ledger(|l| {
             if m != MAGIC {
                 l.bad_magic += 1;
+                POISON.store(true, Ordering::SeqCst);
             } else {
                 bump(&mut l.qdrops, id);
                 l.drop_order.push(id);
+                if l.qdrops[id as usize] + l.returned.get(id as usize).copied().unwrap_or(0) > 1 {
+                    POISON.store(true, Ordering::SeqCst);
+                }
             }
         });
     }
@@ -89,8 +107,12 @@ fn obtained(it: Item) -> u64 {
     ledger(|l| {
         if m != MAGIC {
             l.bad_magic += 1;
+            POISON.store(true, Ordering::SeqCst);
         } else {
             bump(&mut l.returned, id);
+            if l.returned[id as usize] + l.qdrops.get(id as usize).copied().unwrap_or(0) > 1 {
+                POISON.store(true, Ordering::SeqCst);
+            }
         }
     });
     if m != MAGIC {
@@ -111,6 +133,114 @@ fn gate_open(a: usize) {
 }
 fn new_gate() -> usize {
     Box::leak(Box::new(0u64)) as *const u64 as usize
+}
+
+// ---------------------------------------------------------------- eager address re-use (real ABA)
+// glibc does not hand a freed 32-byte-aligned chunk out again soon, so stale head words would never meet a
+// re-used block address in real runs. While a scenario of this family is being run, allocations with the
+// alignment of a queue block (32) are served LIFO from the blocks of the same size freed last; everything else
+// (and every other family) goes straight to the system allocator.
+pub struct Recycler;
+static RECYCLE_ON: std::sync::atomic::AtomicBool = std::sync::atomic::AtomicBool::new(false);
+static RLOCK: std::sync::atomic::AtomicBool = std::sync::atomic::AtomicBool::new(false);
+const RCAP: usize = 64;
+static RPTR: [AtomicUsize; RCAP] = [const { AtomicUsize::new(0) }; RCAP];
+static RSZ: [AtomicUsize; RCAP] = [const { AtomicUsize::new(0) }; RCAP];
+static RLEN: AtomicUsize = AtomicUsize::new(0);
+fn rlock() {
+    while RLOCK.compare_exchange(false, true, Ordering::Acquire, Ordering::Relaxed).is_err() {
+        std::hint::spin_loop();
+    }
+}
+unsafe impl std::alloc::GlobalAlloc for Recycler {
+    unsafe fn alloc(&self, l: std::alloc::Layout) -> *mut u8 {
+        if l.align() == 32 && RECYCLE_ON.load(Ordering::Relaxed) {
+            rlock();
+            let n = RLEN.load(Ordering::Relaxed);
+            let mut found = 0usize;
+            let mut i = n;
+            while i > 0 {
+                i -= 1;
+                if RSZ[i].load(Ordering::Relaxed) == l.size() {
+                    found = RPTR[i].load(Ordering::Relaxed);
+                    // remove entry i, keep the order of the others
+                    for j in i..n - 1 {
+                        RPTR[j].store(RPTR[j + 1].load(Ordering::Relaxed), Ordering::Relaxed);
+                        RSZ[j].store(RSZ[j + 1].load(Ordering::Relaxed), Ordering::Relaxed);
+                    }
+                    RLEN.store(n - 1, Ordering::Relaxed);
+                    break;
+                }
+            }
+            RLOCK.store(false, Ordering::Release);
+            if found != 0 {
+                return found as *mut u8;
+            }
+        }
+        std::alloc::System.alloc(l)
+    }
+    unsafe fn dealloc(&self, p: *mut u8, l: std::alloc::Layout) {
+        if l.align() == 32 && RECYCLE_ON.load(Ordering::Relaxed) {
+            rlock();
+            let n = RLEN.load(Ordering::Relaxed);
+            let room = n < RCAP;
+            if room {
+                RPTR[n].store(p as usize, Ordering::Relaxed);
+                RSZ[n].store(l.size(), Ordering::Relaxed);
+                RLEN.store(n + 1, Ordering::Relaxed);
+            }
+            RLOCK.store(false, Ordering::Release);
+            if room {
+                return;
+            }
+        }
+        std::alloc::System.dealloc(p, l)
+    }
+}
+#[global_allocator]
+static GLOBAL: Recycler = Recycler;
+
+// ---------------------------------------------------------------- stall injection (kind = aba)
+// The installed hook table is wrapped: for the one thread that set `STALL_ME`, the first hooked compare-exchange
+// of spmc.rs first opens `STALL_NOTIFY` and then parks (virtually) on `STALL_GATE`.
+use may::verif::{Ev, Hooks};
+static INNER: std::sync::atomic::AtomicPtr<Hooks> = std::sync::atomic::AtomicPtr::new(std::ptr::null_mut());
+static STALL_GATE: AtomicUsize = AtomicUsize::new(0);
+static STALL_NOTIFY: AtomicUsize = AtomicUsize::new(0);
+thread_local! { static STALL_ME: std::cell::Cell<bool> = const { std::cell::Cell::new(false) }; }
+fn inner() -> &'static Hooks {
+    unsafe { &*INNER.load(Ordering::SeqCst) }
+}
+fn w_before(ev: &Ev) {
+    if ev.op == "cas" && STALL_ME.get() && ev.site.file().ends_with("spmc.rs") {
+        STALL_ME.set(false);
+        (inner().unpark)(STALL_NOTIFY.load(Ordering::SeqCst));
+        (inner().park)(STALL_GATE.load(Ordering::SeqCst), None);
+    }
+    (inner().before)(ev)
+}
+fn w_after(ev: &Ev, r: u64, f: u8) {
+    (inner().after)(ev, r, f)
+}
+fn w_park(a: usize, d: Option<std::time::Duration>) -> Option<bool> {
+    (inner().park)(a, d)
+}
+fn w_unpark(a: usize) -> bool {
+    (inner().unpark)(a)
+}
+fn w_note(k: &'static str, w: &str) {
+    (inner().note)(k, w)
+}
+fn w_now() -> Option<u64> {
+    (inner().now)()
+}
+static WRAP: Hooks = Hooks { before: w_before, after: w_after, park: w_park, unpark: w_unpark, note: w_note, now: w_now };
+fn install_wrap() {
+    let cur = may::verif::hooks().expect("hooks installed") as *const Hooks;
+    if cur != &WRAP as *const Hooks {
+        INNER.store(cur as *mut Hooks, Ordering::SeqCst);
+        may::verif::install(&WRAP);
+    }
 }
 
 #[derive(Clone, Copy, Debug)]
@@ -195,16 +325,37 @@ impl Drop for Fin {
 
 pub fn build(rng: &mut Rng, tier: u32) -> Built {
     *LEDGER.lock().unwrap_or_else(|e| e.into_inner()) = Some(Ledger::default());
+    POISON.store(false, Ordering::SeqCst);
+    install_wrap();
+    RECYCLE_ON.store(true, Ordering::SeqCst);
     let local_mode = rng.chance(500);
+    // kind of scenario
+    let kroll = rng.below(100);
+    let kind = if kroll < 8 { "tiny" } else if kroll < 20 { "aba" } else { "normal" };
     let ns = 1 + rng.below(if tier > 0 { 4 } else { 3 }) as usize; // stealers
     let n = ns + 1;
     const B: u64 = 32;
     // where the contended phase starts: tail at k*B + (B-2 .. B+1), a few values left in front of it
     let blocks_before = if tier > 0 { rng.below(3) } else { rng.below(2) };
-    let pre_push = blocks_before * B + B - 2 + rng.below(4);
-    let left = rng.below(6).min(pre_push);
-    let pre_drain = if rng.chance(150) { 0 } else { pre_push - left };
-    let n_owner_ops = 3 + rng.below(if tier > 0 { 12 } else { 6 }) as usize;
+    let (pre_push, pre_drain) = match kind {
+        "tiny" => (rng.below(3), 0),
+        "aba" => (0, 0),
+        _ => {
+            let pp = blocks_before * B + B - 2 + rng.below(4);
+            let left = rng.below(6).min(pp);
+            (pp, if rng.chance(150) { 0 } else { pp - left })
+        }
+    };
+    // aba prologue: the victim (stealer 1) is stalled at head = (block0, aba_id) believing push_id = aba_pid
+    let aba_id = 1 + rng.below(5);
+    let aba_bulk = local_mode || rng.chance(600); // victim's first op: bulk_pop / steal_into, else pop
+    let aba_pid = if aba_bulk { aba_id + 2 + rng.below(20) } else { aba_id + 1 + rng.below(3) };
+    // values published in the re-used block when the victim is released: fewer than it believes
+    let aba_m = if aba_bulk { aba_id + rng.below(aba_pid - aba_id) } else { aba_id };
+    let n_owner_ops = match kind {
+        "tiny" => 1 + rng.below(4) as usize,
+        _ => 3 + rng.below(if tier > 0 { 12 } else { 6 }) as usize,
+    };
     let owner_ops: Vec<Op> = (0..n_owner_ops)
         .map(|_| match rng.below(10) {
             0..=5 => Op::Push,
@@ -213,27 +364,32 @@ pub fn build(rng: &mut Rng, tier: u32) -> Built {
         })
         .collect();
     let mut st_ops: Vec<Vec<Op>> = vec![];
-    for _ in 0..ns {
-        let k = 1 + rng.below(if tier > 0 { 6 } else { 4 }) as usize;
-        st_ops.push(
-            (0..k)
-                .map(|_| {
-                    if local_mode {
-                        match rng.below(10) {
-                            0..=5 => Op::Steal,
-                            6..=8 => Op::OwnPop,
-                            _ => Op::Empty,
-                        }
-                    } else {
-                        match rng.below(10) {
-                            0..=4 => Op::Pop,
-                            5..=8 => Op::Bulk,
-                            _ => Op::Empty,
-                        }
+    for i in 0..ns {
+        let k = match kind {
+            "tiny" => 1 + rng.below(2) as usize,
+            _ => 1 + rng.below(if tier > 0 { 6 } else { 4 }) as usize,
+        };
+        let mut v: Vec<Op> = (0..k)
+            .map(|_| {
+                if local_mode {
+                    match rng.below(10) {
+                        0..=5 => Op::Steal,
+                        6..=8 => Op::OwnPop,
+                        _ => Op::Empty,
                     }
-                })
-                .collect(),
-        );
+                } else {
+                    match rng.below(10) {
+                        0..=4 => Op::Pop,
+                        5..=8 => Op::Bulk,
+                        _ => Op::Empty,
+                    }
+                }
+            })
+            .collect();
+        if kind == "aba" && i == 0 {
+            v[0] = if local_mode { Op::Steal } else if aba_bulk { Op::Bulk } else { Op::Pop };
+        }
+        st_ops.push(v);
     }
     let leave_in_queue = !local_mode && rng.chance(600);
     let fill_period = 2 + rng.below(3);
@@ -247,6 +403,10 @@ pub fn build(rng: &mut Rng, tier: u32) -> Built {
     let finished = Arc::new(AtomicUsize::new(0));
     let start_gates: Vec<usize> = (0..ns).map(|_| new_gate()).collect();
     let dummy = new_gate();
+    let is_aba = kind == "aba";
+    let (stall_gate, stall_notify) = (new_gate(), new_gate());
+    STALL_GATE.store(stall_gate, Ordering::SeqCst);
+    STALL_NOTIFY.store(stall_notify, Ordering::SeqCst);
 
     let mut actors: Vec<Actor> = vec![];
     let mut names = vec![];
@@ -279,10 +439,50 @@ pub fn build(rng: &mut Rng, tier: u32) -> Built {
                     });
                 }
             }
-            for g in &gates {
-                gate_open(*g);
+            if is_aba {
+                // head = (block0, aba_id), tail.index = aba_pid; then let the victim load this view and stall
+                for _ in 0..aba_pid {
+                    own.push(&mut next_id);
+                }
+                for _ in 0..aba_id {
+                    own.pop(&seqs);
+                }
+                gate_open(gates[0]);
+                gate_wait(stall_notify);
+                // fill and drain block0 and block1 on this thread: block0 is freed here and (allocator permitting)
+                // handed out again for block2
+                for _ in 0..(B - aba_pid) {
+                    own.push(&mut next_id);
+                }
+                for _ in 0..(B - aba_id) {
+                    own.pop(&seqs);
+                }
+                for _ in 0..B {
+                    own.push(&mut next_id);
+                }
+                for _ in 0..B {
+                    own.pop(&seqs);
+                }
+                // head = (block2, aba_id) with only aba_m values published
+                for _ in 0..aba_m {
+                    own.push(&mut next_id);
+                }
+                for _ in 0..aba_id {
+                    own.pop(&seqs);
+                }
+                gate_open(stall_gate);
+                for g in &gates[1..] {
+                    gate_open(*g);
+                }
+            } else {
+                for g in &gates {
+                    gate_open(*g);
+                }
             }
             for op in ops {
+                if poisoned() {
+                    break;
+                }
                 match op {
                     Op::Push => own.push(&mut next_id),
                     Op::OwnPop => {
@@ -300,7 +500,7 @@ pub fn build(rng: &mut Rng, tier: u32) -> Built {
             }
             // keep the queue fed until every stealer is done (an over-claimer waits for the owner)
             let mut it = 0u64;
-            while finished.load(Ordering::SeqCst) < gates.len() && it < 3000 {
+            while finished.load(Ordering::SeqCst) < gates.len() && it < 3000 && !poisoned() {
                 if it % fill_period == 0 {
                     own.push(&mut next_id);
                 } else {
@@ -310,7 +510,11 @@ pub fn build(rng: &mut Rng, tier: u32) -> Built {
             }
             // epilogue: the owner holds the last handles
             if !leave_in_queue {
-                while own.pop(&seqs).is_some() {}
+                while !poisoned() && own.pop(&seqs).is_some() {}
+            }
+            if poisoned() {
+                std::mem::forget(own);
+                return;
             }
             match own {
                 Own::Loc(s0, l0) => {
@@ -338,10 +542,16 @@ pub fn build(rng: &mut Rng, tier: u32) -> Built {
         actors.push(Box::new(move || {
             let _fin = Fin(finished);
             gate_wait(gate);
+            if is_aba && i == 1 {
+                STALL_ME.set(true);
+            }
             let h = shared.lock().unwrap()[i - 1].take().expect("queue published");
             match h {
                 Shared::Raw(q) => {
                     for op in ops {
+                        if poisoned() {
+                            break;
+                        }
                         match op {
                             Op::Pop => {
                                 call("spmc.pop", 0, 0);
@@ -369,7 +579,7 @@ pub fn build(rng: &mut Rng, tier: u32) -> Built {
                 }
                 Shared::Local(s0) => {
                     let (si, mut li) = spmc::local::<Item>();
-                    let mut lpop = |li: &mut Local<Item>| -> Option<u64> {
+                    let lpop = |li: &mut Local<Item>| -> Option<u64> {
                         call("spmc.lpop", 0, i as u64);
                         let r = li.pop().map(obtained);
                         ret("spmc.lpop", r.unwrap_or(NONE));
@@ -379,6 +589,9 @@ pub fn build(rng: &mut Rng, tier: u32) -> Built {
                         r
                     };
                     for op in ops {
+                        if poisoned() {
+                            break;
+                        }
                         match op {
                             Op::Steal => {
                                 call("spmc.steal_into", 0, i as u64);
@@ -399,7 +612,12 @@ pub fn build(rng: &mut Rng, tier: u32) -> Built {
                         }
                     }
                     drop(s0);
-                    while lpop(&mut li).is_some() {}
+                    while !poisoned() && lpop(&mut li).is_some() {}
+                    if poisoned() {
+                        std::mem::forget(li);
+                        std::mem::forget(si);
+                        return;
+                    }
                     call("spmc.lpop", 0, i as u64);
                     drop(li);
                     ret("spmc.lpop", NONE);
@@ -416,8 +634,9 @@ pub fn build(rng: &mut Rng, tier: u32) -> Built {
         .map(|v| v.iter().map(opc).collect::<String>())
         .collect();
     let header = format!(
-        "family=mq_spmc actors={} mode={} pre={}/{} leave={} ops={}",
+        "family=mq_spmc actors={} kind={} mode={} pre={}/{} leave={} ops={}",
         n,
+        if is_aba { format!("aba:{aba_id}/{aba_pid}/{aba_m}") } else { kind.to_string() },
         if local_mode { "local" } else { "raw" },
         pre_push,
         pre_drain,
@@ -430,7 +649,8 @@ pub fn build(rng: &mut Rng, tier: u32) -> Built {
         actors,
         check: Box::new(move |r| {
             let mut v = vec![];
-            let complete = r.deadlock.is_none() && !r.budget_exceeded && r.panics.is_empty();
+            // (after a finding the actors leak the queues on purpose: no loss accounting then)
+            let complete = r.deadlock.is_none() && !r.budget_exceeded && r.panics.is_empty() && !poisoned();
             let l = LEDGER.lock().unwrap_or_else(|e| e.into_inner()).take().unwrap_or_default();
             let s = seqs.lock().unwrap();
             if l.bad_magic > 0 {
